@@ -286,7 +286,8 @@ def check_case(spec):
                 ds = copy.deepcopy(dspec)
                 if cls == "seed_other_layer":
                     key = ["xi", "lam", "d", "gamma", "u"][v % 5] if mag < 1 else "lam"
-                    ds["layer"][key] = ds["layer"][key] * (1 + mag)
+                    # (a parameter that is exactly zero - gamma = 0 is legal - is changed additively: 0 * (1 + mag) is no change)
+                    ds["layer"][key] = ds["layer"][key] * (1 + mag) if ds["layer"][key] != 0 else mag
                     if key == "xi":
                         ds["mesh"]["max_edge_length"] *= 1.0  # same target in length units
                 elif cls == "seed_other_film":
